@@ -1,0 +1,134 @@
+//go:build verif
+
+/*
+ * Verification hooks for property C03 (build tag "verif"): protocol events of the
+ * taskManager hand-off (compose/graph_manager.go) and seeded schedule perturbation.
+ * Add-only; the twins in verif_c03_off.go are empty and inlinable.
+ *
+ * Log-order discipline: a releasing action (spawn, unlock) is logged before it is
+ * performed; an action ordered by the mutex (push, send, full) is logged while the
+ * mutex is held; an acquiring action (lock, recv) is logged after it completed.
+ * The sequence number is taken by one atomic add, which is the linearisation point
+ * of the log entry.
+ */
+
+package compose
+
+import (
+	"runtime"
+	"sort"
+	"sync"
+	"sync/atomic"
+	"time"
+)
+
+// VerifC03Event is one protocol event. TM numbers the task managers in order of
+// first appearance since VerifC03Begin (a run, and every nested graph run, has its own).
+type VerifC03Event struct {
+	Seq  uint64
+	TM   int
+	Kind string
+	Key  string
+	Err  bool
+}
+
+var verifC03 struct {
+	trace uint32 // atomic: 1 = record events
+	seed  uint64 // atomic: 0 = no yields
+	seq   uint64 // atomic
+	mu    sync.Mutex
+	tms   map[*taskManager]int
+	buf   []VerifC03Event
+}
+
+// VerifC03Begin resets the event buffer and switches tracing / yielding on.
+// seed == 0 disables the yields.
+func VerifC03Begin(seed uint64, trace bool) {
+	verifC03.mu.Lock()
+	verifC03.tms = map[*taskManager]int{}
+	verifC03.buf = nil
+	verifC03.mu.Unlock()
+	atomic.StoreUint64(&verifC03.seq, 0)
+	atomic.StoreUint64(&verifC03.seed, seed)
+	if trace {
+		atomic.StoreUint32(&verifC03.trace, 1)
+	} else {
+		atomic.StoreUint32(&verifC03.trace, 0)
+	}
+}
+
+// VerifC03Events returns the events recorded so far, ordered by sequence number.
+func VerifC03Events() []VerifC03Event {
+	verifC03.mu.Lock()
+	out := make([]VerifC03Event, len(verifC03.buf))
+	copy(out, verifC03.buf)
+	verifC03.mu.Unlock()
+	sort.Slice(out, func(i, j int) bool { return out[i].Seq < out[j].Seq })
+	return out
+}
+
+// VerifC03End switches tracing and yielding off.
+func VerifC03End() {
+	atomic.StoreUint32(&verifC03.trace, 0)
+	atomic.StoreUint64(&verifC03.seed, 0)
+}
+
+func verifTrace(t *taskManager, kind string, ta *task) {
+	if atomic.LoadUint32(&verifC03.trace) == 0 {
+		return
+	}
+	ev := VerifC03Event{Kind: kind}
+	if ta != nil {
+		ev.Key = ta.nodeKey
+		ev.Err = ta.err != nil
+	}
+	ev.Seq = atomic.AddUint64(&verifC03.seq, 1)
+	verifC03.mu.Lock()
+	if verifC03.tms != nil {
+		id, ok := verifC03.tms[t]
+		if !ok {
+			id = len(verifC03.tms)
+			verifC03.tms[t] = id
+		}
+		ev.TM = id
+		verifC03.buf = append(verifC03.buf, ev)
+	}
+	verifC03.mu.Unlock()
+}
+
+// verifYield perturbs the schedule at a named window. The decision is a pure
+// function of (seed, site, key): no shared mutable state, hence no extra
+// synchronisation is introduced between the goroutines under test.
+func verifYield(site string, ta *task) {
+	seed := atomic.LoadUint64(&verifC03.seed)
+	if seed == 0 {
+		return
+	}
+	h := seed
+	for i := 0; i < len(site); i++ {
+		h = (h ^ uint64(site[i])) * 0x100000001B3
+	}
+	if ta != nil {
+		for i := 0; i < len(ta.nodeKey); i++ {
+			h = (h ^ uint64(ta.nodeKey[i])) * 0x100000001B3
+		}
+	}
+	h ^= h >> 30
+	h *= 0xBF58476D1CE4E5B9
+	h ^= h >> 27
+	h *= 0x94D049BB133111EB
+	h ^= h >> 31
+	switch h % 5 {
+	case 0:
+	case 1:
+		runtime.Gosched()
+	case 2:
+		runtime.Gosched()
+		runtime.Gosched()
+		runtime.Gosched()
+	case 3:
+		time.Sleep(time.Duration((h>>8)%150) * time.Microsecond)
+	case 4:
+		time.Sleep(time.Duration((h>>8)%1500) * time.Microsecond)
+	}
+}
